@@ -80,11 +80,13 @@ pub fn gen_spec(s: &mut Src) -> Spec {
         let d = if s.chance(1, 3) { Some(gen_text(s, true)) } else { None };
         inner.push((t, d));
     }
-    prefix_free(&mut inner, &[]);
+    // prefix-free per word expression, the opening literal included (C01's stated domain; overlapping
+    // literals inside a word are C12's subject)
+    prefix_free(&mut inner, &[prefix.clone()]);
     if inner.len() < 2 {
         inner.push(("v1".into(), None));
         inner.push(("w2".into(), None));
-        prefix_free(&mut inner, &[]);
+        prefix_free(&mut inner, &[prefix.clone()]);
     }
     let mut twin = None;
     if s.chance(2, 3) {
@@ -96,7 +98,7 @@ pub fn gen_spec(s: &mut Src) -> Spec {
             }
             let t = if k < inner.len() * 2 { gen_text(s, false) } else { format!("t{k}") };
             inner2.push((t, None));
-            prefix_free(&mut inner2, &[]);
+            prefix_free(&mut inner2, &[p2.clone()]);
         }
         if inner2.len() == inner.len() && !p2.starts_with(&prefix) && !prefix.starts_with(&p2) {
             twin = Some((p2, inner2));
